@@ -7,8 +7,8 @@ CLAIMS = {
   note="Trusted: Coq kernel; hand model of CPython int()/str()/rstrip/split (Unicode tables regenerated from the running interpreter); ExtrOcamlBasic extraction + byte-pump driver (cross-checked against vm_compute on a sample each run); the correspondence harness. 4300-digit int limit not modelled.",
   tech="Coq proof (induction, DecimalZ round trip) + differential correspondence"),
  "C03": dict(
-  text="Theorem C03_validate_conforms: for all five versions, all headers in Z^5, all payloads and all oracle behaviours, Message.validate interpreted over the tables GENERATED from const_*.py on every run equals the hand-written serial API spec (Spec/SerialApi.v); proof by a verified classifier of validator shapes plus a per-version finite table check by vm_compute, so any changed bound, word list, dropped or added row breaks a named obligation. Monotonicity, rule totality, child-schema totality are finite facts over the generated tables. The voluptuous interpreter is tied to the real library by a correspondence run over the header grid (exhaustive in the thorough tier) and a boundary payload corpus on every cell; the extracted spec serves as independent validator (monitor).",
-  note="Trusted: translator harness/translate/tables.py (walks live validator objects, fail-closed); voluptuous combinator semantics as modelled; float() and awesomeversion enter as oracles (real verdicts supplied per payload, theorem quantifies over all oracles); CPython int() model.",
+  text="Theorem C03_validate_conforms: for all five versions, all headers in Z^5, all payloads and all oracle behaviours, Message.validate interpreted over the tables GENERATED from const_*.py on every run equals the hand-written serial API spec (Spec/SerialApi.v); proof by a verified classifier of validator shapes plus a per-version finite table check by vm_compute, so any changed bound, word list, dropped or added row breaks a named obligation. C03_node_presentation_version_numeric: a node presentation with a dotted numeric payload validates iff the payload is numerically >= 1.4 (independent section-wise comparison, proved equal to awesomeversion's). Monotonicity, rule totality, child-schema totality are finite facts over the generated tables; the tables of a version must not depend on which other versions are loaded (one fresh interpreter per configuration). The voluptuous interpreter is tied to the real library by a correspondence run over the header grid (exhaustive in the thorough tier) and a boundary payload corpus on every cell; the extracted spec serves as independent validator (monitor).",
+  note="Trusted: translator harness/translate/tables.py (walks live validator objects, fail-closed); voluptuous combinator semantics as modelled; float() enters as an oracle (real verdicts supplied per payload, theorem quantifies over all oracles); awesomeversion is modelled exactly on dotted numeric version strings (Base/Version.v, numeric rule proved: C03_node_presentation_version_numeric) and is an oracle on every other string; CPython int() model.",
   tech="Coq proof by reflection over generated tables + exhaustive correspondence"),
 }
 NOT_YET = "not claimed yet: model and theorems under construction (see DESIGN.md §10 build order)"
